@@ -9,6 +9,8 @@ lvdriver: line-protocol driver of the Lean twin.
 -/
 import LoomVerif.Model.Check
 import LoomVerif.Model.Render
+import LoomVerif.Model.AtomicRun
+import LoomVerif.Spec.StdAtomic
 
 open LoomVerif
 
@@ -88,6 +90,32 @@ partial def stepMain : IO Unit := do
   | _ => IO.println "ERR"
   stepMain
 
+/-- C12: one single-thread program per line; prints the returns + final content computed by the
+layered model (`atomicRunAll`, every candidate choice) and by the reference semantics `Std.run` -/
+partial def c12Main : IO Unit := do
+  let stdin ← IO.getStdin
+  let line ← stdin.getLine
+  if line.isEmpty then return
+  let line := line.trimAscii.toString
+  if line.isEmpty then c12Main else
+  IO.println s!"PROG {line}"
+  match Prog.parse line with
+  | some { cfg, threads := [ops] } =>
+    let aops := ops.filterMap fun | .atom 0 a => some a | _ => none
+    if aops.length != ops.length then IO.println "DONE 0 parseError" else
+    let valid := aops.all (·.valid cfg.ty)
+    let (rs, fin) := Std.run cfg.ty 0 aops
+    IO.println s!"STD {" ".intercalate (rs.map Ret.render)} | {fin}"
+    match atomicRunAll cfg.ty 0 aops with
+    | .ok outs =>
+      for (rs, fin) in outs do
+        IO.println s!"MODEL {" ".intercalate (rs.map Ret.render)} | {fin}"
+    | .error e => IO.println s!"MODEL panic {e.render}"
+    IO.println s!"DONE 1 {if valid then "valid" else "invalid"}"
+  | _ => IO.println "DONE 0 parseError"
+  (← IO.getStdout).flush
+  c12Main
+
 def parseOpts : List String → Opts → Opts
   | [], o => o
   | "--full" :: r, o => parseOpts r { o with full := true }
@@ -100,4 +128,5 @@ def main (args : List String) : IO Unit := do
   | "explore" :: rest => exploreMain (parseOpts rest {})
   | "replay" :: rest => replayMain (parseOpts rest {}).full none
   | ["step"] => stepMain
+  | ["c12"] => c12Main
   | _ => IO.eprintln "usage: lvdriver explore [--full] [--starts] [--max n] | replay [--full] | step"
